@@ -2,3 +2,4 @@
 pub mod text;
 pub mod strlit;
 pub mod syntax;
+pub mod schema;
